@@ -51,8 +51,9 @@ def conc_case(draw, with_schedule=False):
         if ptr_keys and len(enc) > 4:
             # pointers that are dereferenced INSIDE the thread: an address within this thread's own input (the same
             # number in every thread, so per-pointer-class state keyed by address would show)
+            span = min(len(enc) - 3, (1 << (8 * refsem.SCALARS[cfg["ptr"]][1])) - 2)  # the address must fit the pointer width
             for kk in ptr_keys:
-                v[kk] = 1 + addr_pick % (len(enc) - 3)
+                v[kk] = 1 + addr_pick % span
             enc = bytes(sem.encode(gens.ROOT, v))
         mask = bytearray(len(enc))
         sem.decode(gens.ROOT, enc, 0, mask)
